@@ -2,7 +2,7 @@ import sys, time, json, os
 sys.path.insert(0,'/verif')
 sys.setrecursionlimit(20000)
 from mirsym import engine
-h=sys.argv[1]; params=[int(x) for x in sys.argv[2:] if not x.startswith('-')]
+h=sys.argv[1]; params=[int(x) for x in sys.argv[2:] if not x.startswith('--')]
 opts={'models_for_ok':False}
 for x in sys.argv[2:]:
     if x.startswith('--'):
